@@ -21,6 +21,8 @@ class LRResult:
         self.nstates = 0
         self.conflicts = None        # None = no conflicts reported, else (sr, rr)
         self.inputs, self.impl_out, self.impl_out_rec = [], [], []
+        # per input: (setter order, entry point) the harness used for the recovery-off parse (`# BO`), or None
+        self.builder = []
         for s in self.secs:
             if not s:
                 continue
@@ -30,6 +32,9 @@ class LRResult:
                 self.conflicts = (int(s[1]), int(s[2]))
             elif s[0] == "I":
                 self.inputs.append([int(x) for x in s[1:]])
+                self.builder.append(None)
+            elif s[0] == "BO" and self.builder:
+                self.builder[-1] = (int(s[1]), int(s[2]))
             elif s[0] == "O":
                 self.impl_out.append(" ".join(s[1:]))
             elif s[0] == "OR":
@@ -52,6 +57,17 @@ class LRResult:
 
     def ntoks(self):
         return int(self.secs[0][1])
+
+
+BUILDER_ORDERS = {0: ".recoverer(None)", 1: ".recoverer(None).term_costs(f)", 2: ".term_costs(f).recoverer(None)"}
+ENTRY_POINTS = {0: "parse_map", 1: "parse_generictree", 2: "parse_actions", 3: "parse_noaction"}
+
+
+def builder_text(bo):
+    """human-readable form of a `# BO` pair (how the recovery-off parser was configured and run)"""
+    if bo is None:
+        return "?"
+    return "RTParserBuilder::new(..)%s.%s(..)" % (BUILDER_ORDERS.get(bo[0], "?"), ENTRY_POINTS.get(bo[1], "?"))
 
 
 def run_cases(cases, kind="O", rec=False):
@@ -77,7 +93,7 @@ def run_cases(cases, kind="O", rec=False):
             stitched = outs[0]
             for inp, o in zip(inputs, outs[1:]):
                 if o.startswith("G "):
-                    tail = [x for x in o.split(" # ") if x.split()[:1] and x.split()[0] in ("I", "O", "OR")]
+                    tail = [x for x in o.split(" # ") if x.split()[:1] and x.split()[0] in ("I", "BO", "O", "OR")]
                     if tail:
                         stitched += " # " + " # ".join(tail)
                 else:
